@@ -99,8 +99,8 @@ def make_message(ev, n):
 class C06(Check):
     prop = "C06"
     quick_runs = 128
-    thorough_runs = 5000
-    run_wall = 200.0
+    thorough_runs = 3000
+    run_wall = 600.0
     rule = ("one run = an event history (<= 12 events, up to 3 starts of the same node object) over the RFC 6733 alphabet "
             "(valid / identity-invalid / in-between CER CEA DWR DWA DPR DPA, application request/answer, misaddressed "
             "request, connect ack/nack, local stop, peer disconnect/reset, idle beyond the watchdog) in client or server "
